@@ -216,6 +216,16 @@ func openReal(g Geometry, m *Media, opt OpenOptions) *Store {
 	return s
 }
 
+// Reactivate points the process-wide collaborators the repository reads through exported variables (random
+// generator, error logger, clock) back at this store, after another store (e.g. a recovered copy that was
+// examined in between) has been opened. Without it this store would draw its next hash seeds from the
+// other store's generator.
+func (s *Store) Reactivate() {
+	random.CryptoThreadSafeGenerator = s.Media.Rand
+	util.DefaultErrorLogger = s.Errors
+	clock.SystemClock = VClock{}
+}
+
 // lockOf extracts the *sync.RWMutex a flat local BlobAccess was given (unexported field "lock").
 func lockOf(ba blobstore.BlobAccess) *vsync.RWMutex {
 	v := reflect.ValueOf(ba)
